@@ -193,4 +193,117 @@ theorem fcLoop_cons (cp : Nat) (rest : List Nat) (dmax : Nat) (h0 : cp ≠ 0) (h
             | cons a b => simp only [List.isEmpty_cons, Bool.false_eq_true, if_false]; fin_step
           · simp only [hge, false_and, if_false]; fin_step
 
+theorem fcLoop_big (cp : Nat) (rest : List Nat) (dmax : Nat) (h0 : cp ≠ 0) (hd : dmax ≠ 0) (hm : 0x10FFFF < cp) :
+    fcLoop current (cp :: rest) dmax = .fail ESLEMAX 0 := by
+  have hmax : UniCompos.unicodeMax < cp := by rw [unicodeMax_eq]; omega
+  rw [fcLoop]
+  simp [h0, hd, current_rangeChk, hmax]
+
+theorem fcLoop_zero (cp : Nat) (rest : List Nat) (h0 : cp ≠ 0) : fcLoop current (cp :: rest) 0 = .ok [] 0 := by
+  rw [fcLoop]
+  simp [h0]
+
+/-- a cell of the single-character branch emits at least one cell -/
+theorem fcCell_pos {cp : Nat} (nx : Nat) (h : needs5 cp = true) : 0 < (fcCell cp nx).length := by
+  simp only [needs5, Bool.and_eq_true, Bool.not_eq_eq_eq_not, Bool.not_true, decide_eq_false_iff_not, bne_iff_ne, ne_eq] at h
+  obtain ⟨⟨h1, h2⟩, h3⟩ := h
+  simp only [fcCell, h1, h2, h3, if_false, Bool.false_eq_true]
+  split
+  · exact List.length_pos_iff.mpr (decompose1_ne_nil _)
+  · simp
+
+/-- the loop of `_wcsfc_s_chk` with the range check, any string without an embedded terminator, any `dmax`:
+no table index out of bounds; the two ways it fails; success with room left means `fcPure`; no write behind `dest + dmax`
+when the result fits at all; success when 4 more cells than the result are available -/
+theorem fcLoop_spec : ∀ (src : List Nat) (dmax : Nat), (∀ c ∈ src, c ≠ 0) →
+    fcLoop current src dmax ≠ .oob ∧
+    (∀ r l, fcLoop current src dmax = .fail r l → (r = ESLEMAX ∧ l = 0) ∨ (r = ESNOSPC ∧ l = 2)) ∧
+    (∀ out d, fcLoop current src dmax = .ok out d → 0 < d →
+        out = fcPure src ∧ d + out.length = dmax ∧ ∀ c ∈ src, c ≤ 0x10FFFF) ∧
+    ((fcPure src).length ≤ dmax → fcLoop current src dmax ≠ .overrun) ∧
+    ((∀ c ∈ src, c ≤ 0x10FFFF) → (fcPure src).length + 4 ≤ dmax →
+        fcLoop current src dmax = .ok (fcPure src) (dmax - (fcPure src).length)) := by
+  intro src
+  induction src with
+  | nil =>
+    intro dmax _
+    simp [fcLoop, fcPure]
+  | cons cp rest ih =>
+    intro dmax h0
+    have hcp0 : cp ≠ 0 := h0 cp (by simp)
+    have hrest : ∀ c ∈ rest, c ≠ 0 := fun c hc => h0 c (by simp [hc])
+    by_cases hd : dmax = 0
+    · subst hd
+      rw [fcLoop_zero cp rest hcp0]
+      simp [fcPure]
+    · by_cases hm : 0x10FFFF < cp
+      · rw [fcLoop_big cp rest dmax hcp0 hd hm]
+        simp only [ne_eq, reduceCtorEq, not_false_eq_true, Step.fail.injEq, imp_false, true_and, false_imp_iff, implies_true]
+        refine ⟨?_, ?_⟩
+        · intro r l hr; left; exact ⟨hr.1.symm, hr.2.symm⟩
+        · intro hall; have := hall cp (by simp); omega
+      · have hle : cp ≤ 0x10FFFF := by omega
+        rw [fcLoop_cons cp rest dmax hcp0 hd hle]
+        have hpos := fcCell_pos (cp := cp) (rest.headD 0)
+        have hpure : fcPure (cp :: rest) = fcCell cp (rest.headD 0) ++ fcPure rest := rfl
+        rw [hpure]
+        generalize fcCell cp (rest.headD 0) = w at hpos ⊢
+        obtain ⟨i1, i2, i3, i4, i5⟩ := ih (dmax - w.length) hrest
+        simp only [List.length_append]
+        by_cases h5 : needs5 cp = true ∧ dmax < 5
+        · simp only [h5, and_self, if_true]
+          have := hpos h5.1
+          refine ⟨by simp, ?_, by simp, by simp, ?_⟩
+          · intro r l hr; right; simp only [Step.fail.injEq] at hr; exact ⟨hr.1.symm, hr.2.symm⟩
+          · intro _ hlen; omega
+        · simp only [h5, if_false]
+          by_cases hov : dmax < w.length
+          · simp only [hov, if_true]
+            refine ⟨by simp, by simp, by simp, ?_, ?_⟩
+            · intro hlen; omega
+            · intro _ hlen; omega
+          · simp only [hov, if_false]
+            cases hr : fcLoop current rest (dmax - w.length) with
+            | ok out d =>
+              simp only [contOk]
+              refine ⟨by simp, by simp, ?_, by simp, ?_⟩
+              · intro out' d' hok hd'
+                simp only [Step.ok.injEq] at hok
+                obtain ⟨rfl, rfl⟩ := hok
+                obtain ⟨e1, e2, e3⟩ := i3 out d hr hd'
+                refine ⟨by rw [e1], ?_, ?_⟩
+                · simp only [List.length_append]; omega
+                · intro c hc
+                  simp only [List.mem_cons] at hc
+                  rcases hc with rfl | hc
+                  · exact hle
+                  · exact e3 c hc
+              · intro hall hlen
+                have := i5 (fun c hc => hall c (by simp [hc])) (by omega)
+                rw [hr] at this
+                simp only [Step.ok.injEq] at this
+                rw [this.1, this.2]
+                congr 1
+                omega
+            | fail a b =>
+              simp only [contOk]
+              refine ⟨by simp, ?_, by simp, by simp, ?_⟩
+              · intro r l hrl
+                simp only [Step.fail.injEq] at hrl
+                obtain ⟨rfl, rfl⟩ := hrl
+                exact i2 a b hr
+              · intro hall hlen
+                have := i5 (fun c hc => hall c (by simp [hc])) (by omega)
+                rw [hr] at this
+                cases this
+            | oob => exact absurd hr i1
+            | overrun =>
+              simp only [contOk]
+              refine ⟨by simp, by simp, by simp, ?_, ?_⟩
+              · intro hlen; exact absurd hr (i4 (by omega))
+              · intro hall hlen
+                have := i5 (fun c hc => hall c (by simp [hc])) (by omega)
+                rw [hr] at this
+                cases this
+
 end SafeC.Fold
